@@ -106,6 +106,12 @@ theorem queue_locks :
     LinkedList.facts.methods.all (fun M => M.fieldCallsHeld.isEmpty && M.fieldCallsFree.isEmpty && M.callbacksHeld.isEmpty) = true ∧
     (RequestQueue.facts.methods.flatMap (·.callbacksHeld)).eraseDups = ["Failed", "Overflowed"] := by decide
 
+/-- **unlock_deferred.**  Every method of every type that takes the instance lock does so as its first
+    statement and releases it by `defer` as its second (so a panic inside the operation — an
+    uncomparable value, a user key whose Equals panics, a user callback — still releases the lock),
+    and uses no other lock operation -/
+theorem unlock_deferred_everywhere : all.all lockPatternOk = true := by decide
+
 /-- no method of a lock-bearing type has a value receiver (a call would copy the mutex) -/
 theorem no_value_receivers :
     all.all (fun T => (valueReceivers T).isEmpty) = true := by decide
